@@ -200,3 +200,39 @@ def rule_narrow_convert(ctx: Ctx, prog: Program) -> None:
                               "a total beyond the type's range wraps silently (offsets of later constraints alias those of the first ones)")
     ctx.floor("R-NARROW-CONVERT:narrow-constructions", n_checked, 2)
     ctx.assume("NumPy >= 2 semantics: np.array(list_of_python_ints, dtype=narrow) raises OverflowError for an out-of-range element")
+
+
+# ------------------------------------------------------------------------------------------ R-INDEX-WIDTH
+DOM_INDEX_CARRIERS = ("dom_indices_arr", "props_dom_indices", "dom_update_stack", "decision_domains")
+
+
+def rule_index_width(ctx: Ctx, prog: Program) -> None:
+    """Shared-domain indices are stored in several arrays: the variable -> domain table, its per-constraint copy, the replay records of the
+    choice points and the decision domains.  An index that fits one of them must fit the others: if the replay record is narrower than the
+    table, the alternative of a decision on domain 256 + k is replayed for domain k (the moved bound is announced to the wrong watchers,
+    nothing raises).  Rule: the arrays that carry shared-domain indices are all allocated with the same integer type."""
+    import ast
+
+    ctx.rule("R-INDEX-WIDTH")
+    found: Dict[str, Tuple[str, str, int]] = {}
+    for f in prog.all_functions():
+        if not (f.module.startswith(f"{prog.package}.problems") or f.module.startswith(f"{prog.package}.solvers")):
+            continue
+        for n in ast.walk(f.node):
+            if isinstance(n, ast.Assign) and len(n.targets) == 1 and isinstance(n.targets[0], ast.Attribute) and n.targets[0].attr in DOM_INDEX_CARRIERS \
+                    and isinstance(n.value, ast.Call):
+                for kw in n.value.keywords:
+                    if kw.arg == "dtype":
+                        found[n.targets[0].attr] = (ast.unparse(kw.value).split(".")[-1], f.path, n.lineno)
+    ctx.floor("R-INDEX-WIDTH:index-carrying-arrays", len(found), 4)
+    kinds = {v[0] for v in found.values()}
+    if len(kinds) <= 1:
+        ctx.ok("R-INDEX-WIDTH", "the arrays that carry shared-domain indices have one integer type", sample={k: v[0] for k, v in found.items()})
+        return
+    ref = found.get("dom_indices_arr", next(iter(found.values())))[0]
+    for name, (dt, path, line) in sorted(found.items()):
+        if dt != ref:
+            ctx.violation("R-INDEX-WIDTH", path, name, f"width:{name}", f"{path}:{line}",
+                          f"{name} is allocated as {dt} while the variable -> shared-domain table is {ref}: a shared-domain index that fits the table does "
+                          f"not fit {name} and is stored modulo 2**bits -- the entry then designates another domain (for the replay records: the bound moved "
+                          "by the alternative of a decision on domain 256 + k is announced to the watchers of domain k)")
